@@ -187,14 +187,22 @@ Definition set_len (f : file) (n : N) : file :=
 Definition hash_fn := file -> hash -> option (hash * N).   (* new hash and the (possibly updated) length *)
 
 (* one spawned task: hash the head of the run; every member gets its hash and its length *)
+(* one spawned task (repaired K5): the members of the run are tried in order, always with the old hash of the FIRST
+   member; the members whose own read fails are left out; the first member that hashes is the representative: it and
+   every member after it get its hash and its length.  If every member fails the run disappears. *)
+Fixpoint hash_from (hf : hash_fn) (old : hash) (run : list item) : list item :=
+  match run with
+  | [] => []
+  | x :: tl =>
+      match hf (snd x) old with
+      | Some (h, len) => map (fun y => (h, set_len (snd y) len)) (x :: tl)
+      | None => hash_from hf old tl
+      end
+  end.
 Definition hash_run (hf : hash_fn) (run : list item) : list item :=
   match run with
   | [] => []
-  | (old, rep) :: _ =>
-      match hf rep old with
-      | None => []
-      | Some (h, len) => map (fun x => (h, set_len (snd x) len)) run
-      end
+  | (old, _) :: _ => hash_from hf old run
   end.
 
 Definition item_same_id (a b : item) : bool := same_id (snd a) (snd b).
